@@ -546,8 +546,25 @@ class Fn:
         self.uniq += 1
         return f'{base}_{self.uniq}'
 
+    def return_call(self, n):
+        # C09: "call_returns": {"<out name of F>": {"callee": "<Gallina value>"}} - inside F a statement that is a call to
+        # `callee` ends F with that value (used to expose WHICH branch of a dispatch function is taken)
+        cr = self.ctx.cfg.get('call_returns', {}).get(getattr(self, 'out', None), {})
+        if not cr:
+            return None
+        m = skip_wrappers(n)
+        if m.get('kind') in ('CXXMemberCallExpr', 'CallExpr'):
+            try:
+                nm, _ = self.callee_name(m)
+            except TranslationError:
+                return None
+            return cr.get(nm)
+        return None
+
     def has_jump(self, n):
         k = n.get('kind')
+        if self.return_call(n) is not None:
+            return True
         if k in ('ReturnStmt', 'BreakStmt', 'ContinueStmt', 'CXXThrowExpr'):
             return True
         if k in ('WhileStmt', 'ForStmt', 'DoStmt'):
@@ -718,6 +735,8 @@ class Fn:
             return 'Exn'
         if kind == 'SwitchStmt':
             return self.switch(s, rest, jc)
+        if self.return_call(s) is not None:   # C09: see return_call
+            return jc['ret']('(%s)' % self.return_call(s))
         return self.expr_stmt(s, rest)
 
     def decl(self, s, rest):
